@@ -18,14 +18,14 @@ pub fn configs(tier: Tier) -> Vec<(&'static str, &'static str)> {
         ("tm-preserve", "tm_parse tm_display tm_preserve"),
         ("te-unbounded", "te_parse te_display te_unbounded"),
         ("te-serde", "te_parse te_display te_serde"),
+        ("tm-parse-only", "tm_parse"),
+        ("tm-display-only", "tm_display"),
     ];
     let more = vec![
         ("te-perf-serde", "te_parse te_display te_perf te_serde"),
         ("te-parse-perf", "te_parse te_perf"),
         ("te-display-perf", "te_display te_perf"),
         ("te-parse-serde", "te_parse te_serde"),
-        ("tm-parse-only", "tm_parse"),
-        ("tm-display-only", "tm_display"),
         ("tm-preserve-parse-only", "tm_parse tm_preserve"),
         ("tm-preserve-display-only", "tm_display tm_preserve"),
         ("tm-perf", "tm_parse tm_display te_perf"),
